@@ -2,7 +2,6 @@ package main
 
 import (
 	"flag"
-	"fmt"
 
 	"verif/harness/internal/eng"
 )
@@ -54,7 +53,6 @@ func init() {
 		res.Violations = viols
 		res.Extra = map[string]any{"comparisons": checks, "experiments_by_part": parts}
 		writeResult(*resPath, res)
-		fmt.Sprint()
 		return 0
 	})
 }
